@@ -197,6 +197,10 @@ func (p *Plugin) ValidateObservation(
 		return fmt.Errorf("validate observed sequence numbers: %w", err)
 	}
 
+	if err := validateMessageKeys(decodedObservation.Messages); err != nil {
+		return fmt.Errorf("validate message keys: %w", err)
+	}
+
 	return nil
 }
 
